@@ -45,7 +45,7 @@ def _verify_one(job):
 def run_deductive(functions, tier):
     import contracts as C
     contracts, macros = C.load_all()
-    timeout_ms = 10000 if tier == "quick" else 60000
+    timeout_ms = 20000 if tier == "quick" else 120000
     jobs = []
     for qn in functions:
         if qn not in contracts:
